@@ -1500,8 +1500,11 @@ def gen_direct_task(rng, ground='shared_ideal', maxops=20):
     elif r3 < 0.48:
         xloads.append(['insul', rng.choice([1.5, 3.0]), rng.choice([2.3, 4.0]), rng.randrange(len(wires))])
     loads = []
-    if rng.random() < 0.4:
-        loads.append([rng.choice(['50+3j', '10-100j']), rng.randrange(0, npl)])
+    if rng.random() < 0.5:
+        loads.append([rng.choice(['50+3j', '10-100j']), rng.randrange(0, npl),
+                      rng.choice(['abs', 'abs', 'geo', 'all_geo', 'all'])])
+        if rng.random() < 0.3:
+            loads.append([rng.choice(['5', '0+20j']), rng.randrange(0, npl), rng.choice(['abs', 'geo'])])
     skin = []
     sig = []
     if rng.random() < 0.4:
